@@ -842,6 +842,10 @@ def run(repo, check):
     from sa.rules import c07
     from sa.rules.common import share
     share(check, repo, c07.rule_r2, 'C01.R10', 'the bitmap designates the descriptors whose width and scale the marker values are decoded with (shared with C07.R2)')
+    from sa.rules import c07 as _c07
+    from sa.rules.common import share as _sh
+    _sh(check, repo, _c07.rule_r3, 'C01.R11', 'values introduced by marker operators are decoded with the coding of the element the bitmap designates (225255: width + 1, '
+        'reference -2**width), freshly derived for every message (shared with C07.R3)', args=(check.tier,))
     check.assumptions = ['bitstring reads the requested number of bits MSB first (trusted base)',
                          'Table B contents (width, scale, reference of each element) are data, not decided here',
                          'the frozen operator table (DESIGN appendix A.3) restates FM-94 regulation 94.5.3 / Table C']
